@@ -26,7 +26,6 @@ DIRECT = {
     'htp_connp_RES_LINE:look-ahead[(out_current_read_offset + 1) < out_current_len]': 'only evaluated when the status line does not look like one (htp_treat_response_line_as_body), i.e. for ill-formed responses',
     'htp_connp_RES_LINE:look-ahead[out_current_data[out_current_read_offset] == 72]': 'same arm ("next line begins with H")',
     'htp_connp_RES_LINE:look-ahead[out_current_len <= out_current_read_offset]': 'same arm ("whole chunk was body")',
-    'data_probe_chunk_length:look-ahead[(out_current_read_offset - out_current_consume_offset) < 8]': 'chunk-length probing only rejects lines with leading junk, which a well-formed chunked body does not contain; for hex digits both outcomes continue',
 }
 
 
@@ -224,6 +223,13 @@ def run(repo='/repo', tier='quick'):
                 span = ('%s_current_consume_offset' % d) in txt and off in txt and a[2].isdigit()
                 if not (direct or lencmp or span):
                     continue
+                if span and not direct and not lencmp:
+                    # carry size + unconsumed span = length of the line so far, the same for every segmentation: not a look-ahead
+                    carry = '%s_buf_size' % d
+                    locs = {v['name'] for v in nodes(cexp, lambda y: y.get('k') == 'var' and y.get('decl') == 'local')}
+                    carried = {v for v in locs if P.local_init_from(f, lambda e, v=v: e is not None and any(m.get('field') == carry for m in nodes(e, lambda y: y.get('k') == 'member'))) == v}
+                    if carry in txt or carried:
+                        continue
                 # the bulk shape min(left, len - off) and the driver-style exhaustion test are not look-aheads
                 if a[0] == '(%s - %s)' % (ln, off) and a[1] in ('>=', '<') and ('left' in a[2] or 'chunked_length' in a[2]):
                     continue
@@ -352,15 +358,24 @@ def run(repo='/repo', tier='quick'):
             res.check(not keeps, 'C03.e', '%s:rewind-keeps-buffer' % name, 'the carry buffer is cleared when the line is un-read',
                       '%s un-reads the peeked line by rewinding the read offset but leaves the copy that htp_connp_%s_consolidate_data() made in the carry buffer: when the line started in the previous chunk its bytes are seen twice (or never) by the next state' % (name, side), rew[0][2]['loc'])
     # (iii) state functions read lines only through the consolidated view
-    helpers = {'htp_connp_req_buffer', 'htp_connp_res_buffer', 'htp_connp_req_consolidate_data', 'htp_connp_res_consolidate_data', 'data_probe_chunk_length',
+    helpers = {'htp_connp_req_buffer', 'htp_connp_res_buffer', 'htp_connp_req_consolidate_data', 'htp_connp_res_consolidate_data',
                'htp_connp_req_receiver_send_data', 'htp_connp_res_receiver_send_data'}
+
+    def consults_carry(f, d):
+        # a function that looks at the raw span AND at the bytes in the carry buffer sees the whole line (subscript or pointer read of {in,out}_buf, not just a NULL test)
+        for b_, i_, st_ in f.stmts():
+            for x_ in nodes(st_, lambda y: y.get('k') == 'index' or (y.get('k') == 'bin' and y.get('op') == '+')):
+                base = x_.get('base') if x_['k'] == 'index' else x_.get('l')
+                if P.member_field(base) == '%s_buf' % d:
+                    return True
+        return False
     for d in ('in', 'out'):
         want = '(connp->%s_current_data + connp->%s_current_consume_offset)' % (d, d)
         for n_, f in sorted(db.fn.items()):
             for b, i, st in f.stmts():
                 for x in nodes(st, lambda y: y.get('k') == 'bin' and y['op'] == '+'):
                     if P.K(x) == want:
-                        res.check(n_ in helpers, 'C03.b', '%s:raw-line-view' % n_, 'the raw unconsumed span is read only by the buffering helpers',
+                        res.check(n_ in helpers or consults_carry(f, d), 'C03.b', '%s:raw-line-view' % n_, 'the raw unconsumed span is read only by the buffering helpers, or together with the carry buffer',
                                   '%s reads current_data + consume_offset directly: bytes buffered from earlier chunks are not part of that view' % n_, x['loc'])
     # ---------------- C03.f  the carry buffer and its size are one value
     res.rule('C03.f', 'the carry buffer pointer and its size change together: every store to {in,out}_buf is followed on every path (other than the allocation-failed exit) by a store of the matching size to {in,out}_buf_size - NULL with 0, malloc(N) with N, realloc(_, N) with N; the limit check reads the size without looking at the pointer')
